@@ -1428,6 +1428,10 @@ SRC_DEPENDENTS = {
     'sq': ['mul', 'powmod', 'powmod_N'], 'mul': ['gcdext', 'invert', 'powmod', 'powmod_N'],
     'mod_N': ['powmod_N'], 'mod': ['gcd', 'powmod'], 'divmod': ['gcdext', 'invert'], 'gcd': ['is_irreducible'],
     'invert': ['powmod'], 'powmod': ['is_irreducible'], 'is_irreducible': ['next_irreducible'],
+    # BinaryPolynomial
+    'b_degree': ['b_is_irreducible'], 'b_sq': ['b_mul'], 'b_mul': ['b_gcdext', 'b_invert', 'b_is_irreducible'],
+    'b_mod': ['b_gcd', 'b_is_irreducible'], 'b_divmod': ['b_gcdext', 'b_invert'], 'b_gcd': ['b_is_irreducible'],
+    'b_is_irreducible': ['b_next_irreducible'],
 }
 # operations of the job machinery that exercise a translated method (for the focused search)
 SRC_OPS = {
@@ -1436,6 +1440,9 @@ SRC_OPS = {
     'divmod': ['divmod', 'floordiv'], 'gcd': ['gcd'], 'gcdext': ['gcdext'], 'invert': ['invert'],
     'powmod': ['powmod'], 'powmod_N': ['powmod'], 'is_irreducible': ['irr', 'gf'],
     'next_irreducible': ['nextirr', 'findirr'],
+    'b_degree': ['degree'], 'b_sq': ['sq'], 'b_mul': ['mul'], 'b_mod': ['mod'], 'b_divmod': ['divmod', 'floordiv'],
+    'b_gcd': ['gcd'], 'b_gcdext': ['gcdext'], 'b_invert': ['invert'], 'b_is_irreducible': ['irr', 'gf'],
+    'b_next_irreducible': ['nextirr', 'findirr'],
 }
 
 
